@@ -916,8 +916,9 @@ func ruleC11ReaderCopiesOnlyToCaller(c *Ctx) {
 		bad := ""
 		badPos := ""
 		seen := map[ssa.Value]bool{}
-		var walk func(v ssa.Value)
-		walk = func(v ssa.Value) {
+		// isCallersBuf: in the frame being walked, dst is Read's own buffer parameter
+		var walk func(v ssa.Value, isCallersBuf func(dst ssa.Value) bool, depth int)
+		walk = func(v ssa.Value, isCallersBuf func(dst ssa.Value) bool, depth int) {
 			if seen[v] || v.Referrers() == nil {
 				return
 			}
@@ -926,20 +927,41 @@ func ruleC11ReaderCopiesOnlyToCaller(c *Ctx) {
 				switch x := r.(type) {
 				case *ssa.Slice:
 					if x.X == v {
-						walk(x)
+						walk(x, isCallersBuf, depth)
 					}
 				case *ssa.Phi:
-					walk(x)
+					walk(x, isCallersBuf, depth)
 				case *ssa.DebugRef, *ssa.BinOp, *ssa.IndexAddr, *ssa.Index:
 				case *ssa.Call:
 					b, isB := x.Call.Value.(*ssa.Builtin)
+					h := x.Call.StaticCallee()
 					switch {
 					case isB && b.Name() == "len", isB && b.Name() == "cap":
 					case isB && b.Name() == "copy" && len(x.Call.Args) == 2 && x.Call.Args[1] == v:
 						// destination must be Read's own buffer parameter (captured)
-						dst := trimAddr(accessPath(x.Call.Args[0]))
-						if len(f.Params) < 2 || dst != "P:"+f.Params[1].Name() {
+						if !isCallersBuf(x.Call.Args[0]) {
 							bad, badPos = "copied into "+describeOperand(x.Call.Args[0])+" (not the caller's buffer)", u.ipos(x)
+						}
+					case h != nil && h.Blocks != nil && h.Pkg == f.Pkg && depth < 2:
+						// a helper of the package: the same discipline holds for its view of the bytes
+						c.FuncsAnalysed[shortName(h)] = true
+						call := x
+						for k, a := range call.Call.Args {
+							if a != v || k >= len(h.Params) {
+								continue
+							}
+							walk(h.Params[k], func(dst ssa.Value) bool {
+								dp, isP := resolve(dst).(*ssa.Parameter)
+								if !isP {
+									return false
+								}
+								for j, q := range h.Params {
+									if q == dp && j < len(call.Call.Args) && isCallersBuf(call.Call.Args[j]) {
+										return true
+									}
+								}
+								return false
+							}, depth+1)
 						}
 					default:
 						bad, badPos = "handed to "+calleeLabel(x), u.ipos(x)
@@ -955,7 +977,9 @@ func ruleC11ReaderCopiesOnlyToCaller(c *Ctx) {
 				}
 			}
 		}
-		walk(g.Params[0])
+		walk(g.Params[0], func(dst ssa.Value) bool {
+			return len(f.Params) >= 2 && trimAddr(accessPath(dst)) == "P:"+f.Params[1].Name()
+		}, 0)
 		if bad == "" {
 			c.ok("secrets.Reader.Read/callback", u.pos(g.Pos()), "protected bytes only copied into the caller's buffer")
 		} else {
